@@ -596,6 +596,23 @@ pub fn base_records() -> Vec<(u32, Val)> {
     r
 }
 
+fn many_files(n: usize) -> Dev {
+    let s = |f: &dyn Fn(usize) -> String| Val::StrArray((0..n).map(|k| f(k).into_bytes()).collect());
+    Dev::Multi(vec![
+        Dev::Set(t(T::RPMTAG_BASENAMES), s(&|k| format!("f{}", k))),
+        Dev::Set(t(T::RPMTAG_DIRNAMES), s(&|k| format!("/d{}/", k))),
+        Dev::Set(t(T::RPMTAG_DIRINDEXES), Val::Int32((0..n as u32).rev().collect())),
+        Dev::Set(t(T::RPMTAG_FILEMODES), Val::Int16((0..n).map(|k| 0o100000 | (k as u16 & 0o777)).collect())),
+        Dev::Set(t(T::RPMTAG_FILEUSERNAME), s(&|k| format!("u{}", k))),
+        Dev::Set(t(T::RPMTAG_FILEGROUPNAME), s(&|k| format!("g{}", k))),
+        Dev::Set(t(T::RPMTAG_FILEDIGESTS), s(&|k| format!("{:064x}", k))),
+        Dev::Set(t(T::RPMTAG_FILEMTIMES), Val::Int32((0..n as u32).collect())),
+        Dev::Set(t(T::RPMTAG_FILESIZES), Val::Int32((0..n as u32).map(|k| k * 3).collect())),
+        Dev::Set(t(T::RPMTAG_FILEFLAGS), Val::Int32((0..n as u32).map(|k| k % 2).collect())),
+        Dev::Set(t(T::RPMTAG_FILELINKTOS), s(&|_| String::new())),
+    ])
+}
+
 #[derive(Clone, Debug)]
 pub enum Dev {
     Drop(u32),
@@ -776,14 +793,34 @@ fn groups() -> Vec<Group> {
             name: if half == 0 { "dependencies-1" } else { "dependencies-2" },
             tags: ds.iter().flat_map(|(_, a, b, c)| [t(*a), t(*b), t(*c)]).collect(),
             accessors: ds.iter().map(|(n, ..)| *n).collect(),
-            extra: vec![],
+            // lists of 255 / 256 / 257 members (a count that does not fit one byte)
+            extra: [255usize, 256, 257]
+                .iter()
+                .map(|n| {
+                    let (_, a, b, c) = ds[0];
+                    Dev::Multi(vec![
+                        Dev::Set(t(a), Val::StrArray((0..*n).map(|k| format!("d{}", k).into_bytes()).collect())),
+                        Dev::Set(t(b), Val::Int32((0..*n as u32).map(|k| 8 + (k % 3) * 2).collect())),
+                        Dev::Set(t(c), Val::StrArray((0..*n).map(|k| format!("{}.0", k).into_bytes()).collect())),
+                    ])
+                })
+                .collect(),
         });
     }
     g.push(Group {
         name: "changelog",
         tags: vec![t(T::RPMTAG_CHANGELOGNAME), t(T::RPMTAG_CHANGELOGTIME), t(T::RPMTAG_CHANGELOGTEXT)],
         accessors: vec!["get_changelog_entries"],
-        extra: vec![],
+        extra: [255usize, 256, 257]
+            .iter()
+            .map(|n| {
+                Dev::Multi(vec![
+                    Dev::Set(t(T::RPMTAG_CHANGELOGNAME), Val::StrArray((0..*n).map(|k| format!("N{} <n@x>", k).into_bytes()).collect())),
+                    Dev::Set(t(T::RPMTAG_CHANGELOGTIME), Val::Int32((0..*n as u32).map(|k| 1_000_000_000 + k).collect())),
+                    Dev::Set(t(T::RPMTAG_CHANGELOGTEXT), Val::StrArray((0..*n).map(|k| format!("- {}", k).into_bytes()).collect())),
+                ])
+            })
+            .collect(),
     });
     for half in 0..2 {
         let ss = &SCRIPTS[half * 4..half * 4 + 4];
@@ -829,6 +866,9 @@ fn groups() -> Vec<Group> {
             Dev::Set(t(T::RPMTAG_FILEDIGESTS), Val::strs(&[&format!("{}é", d("a", 62)), &d("b2", 32), ""])),
             // empty file list
             Dev::Set(t(T::RPMTAG_BASENAMES), Val::strs(&[])),
+            // 256 and 257 files in 256 and 257 directories
+            many_files(256),
+            many_files(257),
         ],
     });
     g
